@@ -897,7 +897,7 @@ def _stream_prims(ctx, V):
     cases += [bytes([c]) + b"1" for c in range(256)] + [b"1" + bytes([c]) for c in range(256)]
     cases += [b"0o17", b"0O17", b"0o_17", b"0O_1_7", b"1_000", b"-0", b"+00012", b"\x0b12\x0c", b"12\r\n", b"0x1f", b"1e3", b"1.0",
               b"99999999999999999999999", b"-99999999999999999999999", b"0b1", b"00", b"07", b"08"]
-    for _ in range(ctx.budget(800)):
+    for _ in range(ctx.budget(1600)):
         cases.append(bytes(rng.choice(b"0123456789 +-_o\t") for _ in range(rng.randint(1, 8))))
     lines = [f"c01.pyint 8 {hx(c)}" for c in cases] + [f"c01.pyint 10 {hx(c)}" for c in cases]
     outs = ctx.driver.batch(lines)
@@ -911,7 +911,7 @@ def _stream_prims(ctx, V):
             _cmp(ctx, "prim.pyint", {"base": base, "text": hx(c)}, o, real)
     # --- str(int)
     ints = TIMES + NEG_TIMES + HUGE_TIMES + [9, 10, 11, 99, 100, 101, -9, -10, -100] + \
-        [rng.randrange(-10 ** 20, 10 ** 20) for _ in range(ctx.budget(100))]
+        [rng.randrange(-10 ** 20, 10 ** 20) for _ in range(ctx.budget(200))]
     outs = ctx.driver.batch([f"c01.dec {i}" for i in ints])
     for i, o in zip(ints, outs):
         ctx.count("prim.dec", i, True)
@@ -975,7 +975,7 @@ def _stream_tz(ctx):
     # --- format_timezone: model vs real on canonical and non-canonical states
     cases = [(o, n) for o in TZ_CANON + [360000, -360000, 359940, 2 ** 40 * 60, 61, -61, 59, 1, -1, 30]
              for n in (False, True)]
-    for _ in range(ctx.budget(800)):
+    for _ in range(ctx.budget(1600)):
         tz, neg = gen_tz(rng, "canon")
         cases.append((tz, neg))
         cases.append((rng.randrange(-10 ** 6, 10 ** 6) * rng.choice([1, 60, 60, 3600]), rng.random() < 0.3))
@@ -995,7 +995,7 @@ def _stream_tz(ctx):
     texts += [s + b"%02d%02d" % (h, m) for s in (b"+", b"-") for h in (0, 1, 5, 9, 10, 12, 14, 23, 99) for m in (0, 1, 15, 30, 45, 59)]
     texts += [b"", b"+", b"-", b"0000", b"+0", b"-0", b"--700", b"--0", b"+-5", b"-+5", b"+ 100", b"+1_00", b"+0100 ", b"\t+0100",
               b"+10000", b"-99999999", b"+0o10", b"++100", b"+0575", b"+0060", b"-0060", b"+\xd9\xa0\xd9\xa1", b"+12a"]
-    texts += [mutate(rng, rng.choice(texts[:40] or [b"+0100"])) for _ in range(ctx.budget(600))]
+    texts += [mutate(rng, rng.choice(texts[:40] or [b"+0100"])) for _ in range(ctx.budget(1200))]
     outs = ctx.driver.batch([f"c01.parsetz {hx(t)}" for t in texts])
     for t, m in zip(texts, outs):
         try:
@@ -1007,7 +1007,7 @@ def _stream_tz(ctx):
         _cmp(ctx, "tz.parse", {"text": hx(t)}, m, real)
     # --- time entries
     ents = []
-    for _ in range(ctx.budget(800)):
+    for _ in range(ctx.budget(1600)):
         tz, neg = gen_tz(rng, "canon")
         ents.append((gen_ident(rng), gen_time(rng), tz, neg))
     outs = ctx.driver.batch([f"c01.fmtte {hx(p)} {t} {z} {int(n)}" for p, t, z, n in ents])
@@ -1027,7 +1027,7 @@ def _stream_tz(ctx):
     raws += [b"A <a@b>", b"A <a@b> ", b"A <a@b> 1", b"A <a@b> 1 ", b"A <a@b>  1 +0000", b"A <a@b> 1  +0000", b"> 1 +0000",
              b"A <a> b> 1 +0000", b"A <a@b> 1 2 +0000", b"A <a@b> +1 +0000", b"A <a@b> 1_0 +0000", b"no brackets 1 +0000",
              b"A <a@b> x +0000", b"A <a@b> 1 0000"]
-    raws += [mutate(rng, rng.choice(raws[:50])) for _ in range(ctx.budget(800))]
+    raws += [mutate(rng, rng.choice(raws[:50])) for _ in range(ctx.budget(1600))]
     outs = ctx.driver.batch([f"c01.parsete {hx(r)}" for r in raws])
     for r, m in zip(raws, outs):
         try:
@@ -1090,7 +1090,7 @@ def _stream_msg(ctx):
     rng = ctx.rng
     cases = [([], None), ([], b""), ([], b"body"), ([(b"k", b"")], None), ([(b"k", b"\n")], b"\n"),
              ([(b"k", b"a\n b")], b" x"), ([(b"k", b"v"), (b"k", b"v2")], b"\n\n")]
-    for _ in range(ctx.budget(1500)):
+    for _ in range(ctx.budget(3000)):
         cases.append((gen_headers(rng), rng.choice([None, b"", gen_message(rng), b" leading space\n", b"\nfoo"])))
     lines = ["c01.fmtmsg " + " ".join([ob(b)] + [x for k, v in hs for x in (hx(k), hx(v))]) for hs, b in cases]
     outs = ctx.driver.batch(lines)
@@ -1103,7 +1103,7 @@ def _stream_msg(ctx):
         _oracle_msg(ctx, hs, body)
     raws += [b"", b"\n", b"\n\n", b" \n", b" x", b"k", b"k\n", b"k v", b"k v\n", b"k v\n x", b"k v\n\n", b" c\nk v\n\nb", b"k v\n c\n",
              b"k v\n c\n\n", b"k  v\n", b"k \n", b"k v\nnospace\n\nb", b"\nk v\n", b"k v\r\n\r\nb"]
-    raws += [mutate(rng, rng.choice(raws[:200])) for _ in range(ctx.budget(1500))]
+    raws += [mutate(rng, rng.choice(raws[:200])) for _ in range(ctx.budget(3000))]
     outs = ctx.driver.batch([f"c01.parsemsg {hx(r)}" for r in raws])
     for r, m in zip(raws, outs):
         real, _, _ = _real_parse_message(r)
@@ -1137,7 +1137,7 @@ def _oracle_tree(ctx, case, es, rr, stream=None):
 
 def _stream_tree(ctx, V):
     rng = ctx.rng
-    n = ctx.budget(600)
+    n = ctx.budget(1200)
     cases = []
     # the prefix-collision family of the property, exhaustively as dir/file twins
     fam = [b"a", b"a.b", b"a/", b"a-", b"a0", b"a.", b"a-b", b"ab", b"a b", b"a\xff", b"a\x01", b"A"]
@@ -1194,7 +1194,7 @@ def _stream_tree(ctx, V):
              (20, b"100644 a\0" + b"\1" * 20 + b"100644 a\0" + b"\2" * 20),          # duplicate name: dict keeps the last
              (20, b"100644 b\0" + b"\1" * 20 + b"100644 a\0" + b"\2" * 20)]          # unsorted input
     base = list(raws)
-    for _ in range(ctx.budget(1200)):
+    for _ in range(ctx.budget(2400)):
         sl, r = rng.choice(base)
         raws.append((sl, mutate(rng, r)))
     for variant in V.workers:
@@ -1246,7 +1246,7 @@ def _stream_objects(ctx, kind: str):
     gen = gen_commit_fields if kind == "commit" else gen_tag_fields
     tokens = commit_tokens if kind == "commit" else tag_tokens
     ref = ref_commit if kind == "commit" else ref_tag
-    n = ctx.budget(1500) * BOOST
+    n = ctx.budget(3000) * BOOST
     cases = [gen(rng, "canon", "sha256" if rng.random() < 0.2 else "sha1") for _ in range(n)]
     outs = ctx.driver.batch([f"c01.{kind}.ser {tokens(f)}" for f in cases])
     raws = []
@@ -1265,7 +1265,7 @@ def _stream_objects(ctx, kind: str):
         ctx.sample({"stream": f"{kind}.ser", "raw": raws[0][:160].decode("latin1")})
     # ---- canonical bytes written by the reference serialiser: parse, compare with model; touch one field
     canon = []
-    for _ in range(ctx.budget(1200) * BOOST):
+    for _ in range(ctx.budget(2400) * BOOST):
         f = gen(rng, "canon", "sha256" if rng.random() < 0.2 else "sha1")
         if kind == "commit":
             f["mergetag"] = [m if m.endswith(b"\n") else m + b"\n" for m in f["mergetag"]]
@@ -1294,7 +1294,7 @@ def _stream_objects(ctx, kind: str):
         _touch_oracle(ctx, kind, raw, rng)
     # ---- mutated bytes: model vs real only (no property claim on malformed input here)
     base = [r for _, r in canon] + raws
-    muts = [mutate(rng, rng.choice(base)) for _ in range(ctx.budget(1500) * BOOST)] if base else []
+    muts = [mutate(rng, rng.choice(base)) for _ in range(ctx.budget(3000) * BOOST)] if base else []
     muts += _handwritten(kind)
     outs = ctx.driver.batch([f"c01.{kind}.deser {hx(r)}" for r in muts])
     outs2 = ctx.driver.batch([f"c01.{kind}.reser {hx(r)}" for r in muts])
@@ -1322,14 +1322,19 @@ def _handwritten(kind):
                 t + b"author A <a@b> 1 --700\n" + c + b"\nm", t + b"author A <a@b> 1 +0000 \n" + c + b"\nm",
                 t + b"author A <a@b>\n" + c + b"\nm", t + a + a + c + b"\nm", t + t + a + c + b"\nm",
                 t + a + c + b" continuation first\n\nm", b" leading continuation\n" + t + a + c + b"\nm",
-                t + b"parent " + b"c" * 40 + b"\n" + a + b"parent " + b"d" * 40 + b"\n" + c + b"\nm"]
+                t + b"parent " + b"c" * 40 + b"\n" + a + b"parent " + b"d" * 40 + b"\n" + c + b"\nm",
+                # order of failures: the generator yields a header before it splits the next line
+                t + b"author A <a@b> 1 \n+0000\n" + c + b"\nm", t + b"author A <a@b> x +0000\nnospace\n" + c + b"\nm",
+                t + b"nospace\nauthor A <a@b> x +0000\n" + c + b"\nm", t + a + c + b"mergetag object x\n type bogus\nnospace\n\nm"]
     o = b"object " + b"a" * 40 + b"\n"
     return [b"", b"\n", o, o + b"type commit\ntag v\n", o + b"type commit\ntag v\n\n", o + b"type commit\ntag v\n\nmsg",
             o + b"type commit\ntag v\ntagger T <t@t> 1 +0000\n", o + b"type bogus\ntag v\n\nm", o + b"type commit\ntag v\nextra x\n\nm",
             b"type commit\n" + o + b"tag v\n\nm", o + b"type commit\ntag v\ntagger T <t@t>\n\nm",
             o + b"type commit\ntag v\ntagger T <t@t> 1 -0000\n\nm\n-----BEGIN PGP SIGNATURE-----\nx\n-----END PGP SIGNATURE-----\n",
             o + b"type commit\ntag v\n\n-----BEGIN SSH SIGNATURE-----\nx\n-----BEGIN PGP SIGNATURE-----\ny\n",
-            o + b"type commit\ntag v\n\nm-----BEGIN PGP SIGNATURE-----", o + b"type commit\ntag\n\nm", o + b"type commit\ntag \n\nm"]
+            o + b"type commit\ntag v\n\nm-----BEGIN PGP SIGNATURE-----", o + b"type commit\ntag\n\nm", o + b"type commit\ntag \n\nm",
+            o + b"type commit\ntag v\ntagger T <t@t> 1 \n+0000\n\nm", o + b"type bogus\nnospace\n\nm", o + b"nospace\ntype bogus\n\nm",
+            o + b"type commit\nunknown x\nnospace\n\nm"]
 
 
 def _touch_oracle(ctx, kind, raw: bytes, rng, stream=None, attrs=None):
@@ -1816,7 +1821,7 @@ def gen_sequence(rng, kind):
 
 def _stream_edits(ctx):
     rng = ctx.rng
-    n = ctx.budget(2000) * BOOST
+    n = ctx.budget(4000) * BOOST
     items = []
     for i in range(n):
         kind = ("commit", "tag", "tree", "blob")[i % 4]
@@ -1837,7 +1842,7 @@ def _stream_blob(ctx):
     from dulwich.object_format import SHA256
     rng = ctx.rng
     datas = [b"", b"\0", b"a", b"blob 1\0a", b"\n", b"x" * 1000, bytes(range(256))] + \
-        [rng.randbytes(rng.choice([1, 2, 17, 100, 4096, 70000])) for _ in range(ctx.budget(150))]
+        [rng.randbytes(rng.choice([1, 2, 17, 100, 4096, 70000])) for _ in range(ctx.budget(300))]
     outs = ctx.driver.batch([f"c01.hashinput 3 {hx(d)}" for d in datas])
     for d, m in zip(datas, outs):
         cuts = sorted(rng.randrange(len(d) + 1) for _ in range(rng.randint(0, 4)))
